@@ -1,4 +1,4 @@
-// C01: spawn requires Send + 'static (a coroutine migrates between worker threads and may outlive the caller)
+// C01: spawn requires Send (a coroutine migrates between worker threads)
 use std::rc::Rc;
 use std::sync::Arc;
 pub fn w() {
@@ -7,11 +7,10 @@ pub fn w() {
     let _ = h.join();
     let owned = vec![1, 2, 3];
     let _h2 = may::go!(move || owned.len());
-    let r = Rc::new(1);
-    let _h3 = unsafe { may::coroutine::spawn(move || *r) }; //~ E0277 spawn rejects a closure capturing Rc
-    let r2 = Rc::new(1);
-    let _h4 = may::go!(move || *r2); //~ E0277 go! rejects a closure capturing Rc
-    let local = 5;
-    let _h5 = unsafe { may::coroutine::spawn(|| local + 1) }; //~ E0373 spawn rejects a closure borrowing a local
-    let _h6 = unsafe { may::coroutine::Builder::new().spawn(|| local + 1) }; //~ E0373 Builder::spawn rejects a closure borrowing a local
+    let r = Rc::new(1u8);
+    let _h3 = unsafe { may::coroutine::spawn(move || { let r = r; *r }) }; //~ E0277 spawn rejects a closure capturing Rc
+    let r2 = Rc::new(1u16);
+    let _h4 = unsafe { may::coroutine::Builder::new().spawn(move || { let r2 = r2; *r2 }) }; //~ E0277 Builder::spawn rejects a closure capturing Rc
+    let r3 = Rc::new(1u32);
+    let _h5 = unsafe { may::coroutine::spawn(move || r3) }; //~ E0277 spawn rejects a non-Send return value
 }
